@@ -341,9 +341,10 @@ def judge(files, tools, workdir, st, intended=None):
                 ctx.append("default statement whose path is written with a $-escape or a variable")
                 default_cause.append(ctx[0])
             st["llbuild_diagnostics"] += 1
+            msg = re.sub(r"unable to read .*", "unable to read the file named by an include/subninja statement", dg["msg"])
             if ndg < 3:
                 viols.append(("llbuild reports an error on a manifest ninja accepts: %s%s" % (
-                dg["msg"], (" [" + "; ".join(ctx) + "]") if ctx else ""),
+                msg, (" [" + "; ".join(ctx) + "]") if ctx else ""),
                 {"file": show(rel), "line": dg["line"], "column": dg["column"], "text": show(line)}))
     # ---- pools and default targets (reference only: ninja prints neither)
     pools = {unhx(k): v for k, v in dump["pools"].items()}
@@ -353,6 +354,8 @@ def judge(files, tools, workdir, st, intended=None):
                                                                "reference": {show(k): v for k, v in m.pools.items()}}))
     ll_def = sorted(set(canonicalize(unhx(x)) for x in dump["defaults"]))
     if ll_def != sorted(set(m.defaults)):
+        if not default_cause and any(re.search(rb"^default [^\n]*\$", c, re.M) for c in files.values()):
+            default_cause.append("default statement whose path is written with a $-escape or a variable")
         viols.append(("default targets differ from the reference", {"llbuild": [show(x) for x in ll_def],
                                                                    "reference": [show(x) for x in sorted(set(m.defaults))],
                                                                    "edge_cause": default_cause[0] if default_cause else None}))
@@ -627,7 +630,11 @@ def worker(a):
     cstat = collections.Counter()
     for idx in range(a["shard"], a["manifests"], a["nshards"]):
         case = ninja_gen.generate(a["seed"], idx, layout=a["layout"])
+        seen_keys = set()
         for k, det in judge_case(case.files, tools, os.path.join(d, "m"), cstat, case.intended):
+            if k in seen_keys:
+                continue
+            seen_keys.add(k)
             det["generator"] = {"seed": a["seed"], "index": idx, "layout": a["layout"]}
             det["tags"] = sorted(case.tags)
             emit(k, det)
